@@ -3,7 +3,7 @@ import re
 from ..ir import AnalysisBroken, strip_targs, qmatch
 from ..graph import Graph
 from ..expr import access_path, path_str, reaching_defs, norm_cond, origins, leaves, defs_in_node, is_transparent_call
-from .common import strip_casts, short, comparison, gated_by
+from .common import once_init, strip_casts, short, comparison, gated_by
 
 UNITS = ['sdk/src/trace/tracer.cc', 'sdk/src/common/random.cc', 'sdk/src/trace/random_id_generator.cc']
 DRIVERS = ['api_context.cc', 'trace_headers.cc']
@@ -290,7 +290,7 @@ SCENARIOS = [
 ]
 
 
-def rule_r2(ck, prog, f, rule='C05.R2'):
+def rule_r2(ck, prog, f, rule='C05.R2', need_span=True):
     from .common import same_class_inline
     g = Graph(prog, f, inline=same_class_inline(prog, f.cls or ''), max_depth=2, sync_lambdas=False)
     rd = reaching_defs(g)
@@ -309,6 +309,11 @@ def rule_r2(ck, prog, f, rule='C05.R2'):
     sink = sinks[0]
     pa = strip_casts(f, sink.n['args'][0])
     if pa['k'] != 'ref':
+        direct = {strip_targs(f.nodes[j].get('c', '')).rsplit('::', 1)[-1] for j in list(f.subtree(sink.n['args'][0])) + [sink.n['args'][0]] if f.nodes[j]['k'] == 'call'}
+        if direct & {'GetCurrentSpan', 'GetSpan', 'GetContext', 'GetInvalid'}:
+            ck.violation(rule, f, 'sampler-receives-resolved-parent', sink.n,
+                         'the sampler is not handed the resolved parent but an expression computed on the spot (%s): an explicitly given parent is ignored by parent-based sampling' % ', '.join(sorted(direct)))
+            return g, rd, sink, None
         raise AnalysisBroken('Tracer::StartSpan: sampler parent argument is not a local')
     vid = pa['id']
     for (name, scen, expect) in SCENARIOS:
@@ -333,6 +338,45 @@ def rule_r2(ck, prog, f, rule='C05.R2'):
             ck.violation(rule, f, site, defs[0].n if defs else sink.n,
                          'scenario "%s": the parent used for sampling/identity comes from {%s}, the documented source is {%s}' %
                          (name, ','.join(sorted(kinds)) or 'nothing', ','.join(sorted(expect))))
+    # every other consumer of "the parent" uses the very variable the sampler saw, with no redefinition in between: the validity test
+    # that selects the trace id, and the parent handed to the recording Span (its span id becomes the exported parent span id)
+    spans = [p for p in g.points if p.f is f and p.n is not None and p.n['k'] == 'construct' and strip_targs(p.n.get('c', '')).endswith('sdk::trace::Span::Span')]
+    for sp in spans:
+        callee = prog.funcs.get(sp.n.get('ck'))
+        idx = None
+        if callee is not None:
+            for pi, prm in enumerate(callee.params):
+                if re.search(r'trace::SpanContext$', prm['t'].replace('const ', '').rstrip(' &')):
+                    idx = pi
+        else:
+            cand = [ai for ai, a in enumerate(sp.n['args']) if a is not None and a >= 0 and re.search(r'trace::SpanContext$', (f.nodes[a].get('t') or '').replace('const ', '').rstrip(' &'))]
+            idx = cand[0] if len(cand) == 1 else None
+        if idx is None or idx >= len(sp.n['args']):
+            ck.inconclusive(rule, f, 'span-parent-is-resolved-parent', sp.n, 'parent parameter of the Span constructor not identified')
+            continue
+        an = strip_casts(f, sp.n['args'][idx])
+        hops = 0
+        while an['k'] == 'ref' and an.get('id') != vid and an.get('sk') == 'local' and hops < 4:
+            # a once-initialised alias / copy of the resolved parent
+            init = once_init(f, an['i'])
+            if 'i' not in init or init['i'] == an['i']:
+                break
+            an = strip_casts(f, init['i'])
+            hops += 1
+        same = an['k'] == 'ref' and an.get('id') == vid
+        redefined = False
+        if same:
+            between = g.reachable_from([sink], avoid=[sp])
+            for q in g.points:
+                if q.id in between and q.n is not None and q is not sink and any(v == vid and st for (v, st, _x) in defs_in_node(q.f, q.n)):
+                    # a strong redefinition on a path from the sampler call to the constructor
+                    if sp.id in g.reachable_from([q]):
+                        redefined = True
+        ck.verdict(same and not redefined, rule, f, 'span-parent-is-resolved-parent', sp.n,
+                   'the recording span receives the resolved parent the sampler saw' if same and not redefined else
+                   'the parent handed to the recording Span is not the resolved parent the sampler and the trace id were computed from: the exported parent span id (and parent-is-remote) belong to another span')
+    if not spans and need_span:
+        raise AnalysisBroken('Tracer::StartSpan: construction of the recording Span vanished')
     return g, rd, sink, vid
 
 
@@ -686,7 +730,7 @@ def rule_r6(ck, prog, rule='C05.R6'):
 
 def run(ck, prog):
     ck.doc('C05.R1', 'bit provenance of the flags byte: sampled bit = sampler decision, only level-1 bits', 2)
-    ck.doc('C05.R2', 'parent precedence decision table (6 scenarios over restricted reaching definitions); IsRootSpan/GetSpan report what the Context stores', 8)
+    ck.doc('C05.R2', 'parent precedence decision table (6 scenarios over restricted reaching definitions); IsRootSpan/GetSpan report what the Context stores; sampler and recording Span receive the resolved parent', 9)
     ck.doc('C05.R3', 'sources of trace id, span id, remote flag and trace state of the new context', 4)
     ck.doc('C05.R4', 'not-recording edge => NoopSpan with the same context; recording edge => SDK Span', 2)
     ck.doc('C05.R5', 'thread storage of the random engine, its seeding guard and the context stack; per-thread seed', 4)
@@ -695,13 +739,14 @@ def run(ck, prog):
     with ck.canary('C05.R1'):
         rule_r1(ck, prog, cf)
     with ck.canary('C05.R2'):
-        rule_r2(ck, prog, cf)
+        rule_r2(ck, prog, cf, need_span=False)
     f = prog.function('sdk::trace::Tracer::StartSpan')
     rule_r1(ck, prog, f)
     g, rd, sink, vid = rule_r2(ck, prog, f)
     rule_r2_predicates(ck, prog)
-    sc = rule_r3(ck, prog, f, g, rd, vid)
-    rule_r4(ck, prog, f, g, rd, sc)
+    if vid is not None:
+        sc = rule_r3(ck, prog, f, g, rd, vid)
+        rule_r4(ck, prog, f, g, rd, sc)
     rule_r5(ck, prog)
     rule_r6(ck, prog)
     return {}
